@@ -18,9 +18,9 @@ BOUNDS = dict(
                       "t2g eg sp3d2 over O_h (48 signed permutation matrices)",
                rotation="R = sigma*M(q), q a symbolic unit quaternion (4 reals on the 3-sphere), sigma=+-1; axis families: symbolic angle (unit-circle atoms)",
                composition="one symbolic factor times concrete signed permutation matrices, both orders (all 48 for s p sp3; the 3 generators of O_h "
-                           "+ 5 more for d); two symbolic factors for s, p, sp3 and all axis families; all 48x(3 generators) pairs for the O_h-only hybrids"),
+                           "+ 5 more for d); two symbolic factors for s, p, sp3, d (d: first factor proper) and all axis families; all 48x(3 generators) pairs for the O_h-only hybrids"),
     thorough=dict(shells="as quick plus the f shell", rotation="as quick",
-                  composition="as quick, all 48 concrete factors also for d and f, and two symbolic factors for d"))
+                  composition="as quick, all 48 concrete factors also for d (8 for f), two symbolic factors for d and f with all four sign combinations"))
 EXPLANATION = ("The real rot_orb_basis/rot_orb/OrbitalRotator run with the rotation given as sigma*M(q) for a symbolic unit quaternion q (or a symbolic "
                "axis angle); np.linalg.inv is the exact adjugate inverse whose nine entries travel through the function's own sympy algebra as symbols, "
                "sympy.sqrt(3.0) etc. and the doubles 1/sqrt(k) of hybrids_coef are algebraic atoms (w_p^2=p, w_p>0), and every value stored into the "
@@ -31,7 +31,7 @@ ASSUMPTIONS = ["hybrid sets whose span is a proper subspace of the shells involv
                "a projection that cannot be orthogonal",
                "hybrid coefficients of hybrids_coef are the doubles closest to n/sqrt(k); they are taken as the algebraic numbers they round"]
 OUTSIDE = ["second sentence of the property: unitarity / centre mapping of Dwann for arbitrary space groups (irrep objects; not applicable here)",
-           "fully symbolic two-factor composition law for the f shell (and for d in the quick tier)",
+           "quick tier: the f shell, and improper first factors in the two-symbolic-factor law for d (both in the thorough tier)",
            "OrbitalRotator identifies rotations closer than its tolerance 1e-4 (UniqueList); cache lookups are exercised with well separated rotations only",
            "rounding of the double arithmetic (real-number semantics of the code)"]
 STUBS = ["np.linalg.inv on the symbolic rotation: exact adjugate/determinant (no assumption); its entries are handed to the function's sympy algebra as "
@@ -418,8 +418,8 @@ def cases(tier, seed):
         for shell in ("s", "p", "sp3", "d") + (() if q else ("f",)):
             if shell == "d":       # 0.5 s of sympy per call: the concrete factors are split over several processes; quick = generators of O_h + 5 more
                 chunks = [all48[:4], all48[4:8]] if q else [all48[i::6] for i in range(6)]
-            elif shell == "f":
-                chunks = [all48[i::12] for i in range(12)]
+            elif shell == "f":     # 3 s of sympy per call: generators of O_h + 5 more (the two-symbolic-factor cases below cover every pair)
+                chunks = [all48[:2], all48[2:4], all48[4:6], all48[6:8]]
             else:
                 chunks = [all48]
             for k, ch in enumerate(chunks):
@@ -427,7 +427,9 @@ def cases(tier, seed):
         out.append(Case(f"rotator sigma={sigma:+d}", case_rotator, dict(sigma=sigma), timeout=600))
     for s1 in (1, -1):
         for s2 in (1, -1):
-            for shell in ("s", "p", "sp3") + (() if q else ("d",)):
+            for shell in ("s", "p", "sp3", "d") + (() if q else ("f",)):
+                if shell == "d" and q and s1 == -1:      # quick: proper x proper and proper x improper; thorough: all four sign combinations
+                    continue
                 out.append(Case(f"two symbolic factors {shell} {s1:+d} {s2:+d}", case_two, dict(shell=shell, s1=s1, s2=s2), timeout=1100))
     for shell in AXIS:
         out.append(Case(f"axis {shell}", case_axis, dict(shell=shell)))
